@@ -19,13 +19,15 @@ def string_is_url(series: pd.Series, state: dict) -> bool:
         return pandas_apply(
             string_to_url(series, state), lambda x: x.netloc and x.scheme
         ).all()
-    except AttributeError:
+    except (AttributeError, ValueError):
         return False
 
 
 @URL.register_transformer(String, pd.Series)
 def string_to_url(series: pd.Series, state: dict) -> pd.Series:
-    return pandas_apply(series, urlparse)
+    return pandas_apply(
+        series, lambda value: value if pd.isna(value) else urlparse(value)
+    )
 
 
 @URL.contains_op.register
